@@ -84,7 +84,52 @@ def table():
     return _TABLE
 
 
+_GOLDEN = None
+
+
+def golden() -> list:
+    """Key sequences and their documented names written down from the terminals' own conventions (xterm ctlseqs:
+    CSI / SS3 cursor and function keys, CSI n ~ editing and function keys, CSI 1 ; m X and CSI n ; m ~ with
+    m = 1 + shift(1) + meta(2) + ctrl(4); linux console CSI [ A..E; old-style CSI m X) and urwid's documented key names
+    ("shift meta ctrl up", "page down", "f12", ...) - NOT read from urwid.display.escape, so that an entry of the
+    table that is wrong is seen.  Sequences whose name urwid's manual leaves open (rxvt's $ ^ forms, keypad) are not
+    listed here; the table token covers them against the table itself."""
+    global _GOLDEN  # noqa: PLW0603
+    if _GOLDEN is not None:
+        return _GOLDEN
+    g = {}
+    arrows = {"A": "up", "B": "down", "C": "right", "D": "left", "H": "home", "F": "end"}
+    tilde = {1: "home", 2: "insert", 3: "delete", 4: "end", 5: "page up", 6: "page down", 7: "home", 8: "end",
+             11: "f1", 12: "f2", 13: "f3", 14: "f4", 15: "f5", 17: "f6", 18: "f7", 19: "f8", 20: "f9", 21: "f10", 23: "f11", 24: "f12",
+             25: "f13", 26: "f14", 28: "f15", 29: "f16", 31: "f17", 32: "f18", 33: "f19", 34: "f20"}  # fmt: skip
+    for c, n in arrows.items():
+        g["[" + c] = n
+        g["O" + c] = n
+    for n, name in tilde.items():
+        g[f"[{n}~"] = name
+    for i, c in enumerate("PQRS"):
+        g["O" + c] = f"f{i + 1}"
+    for i, c in enumerate("ABCDE"):
+        g["[[" + c] = f"f{i + 1}"
+    for m in range(2, 9):
+        pre = ("shift " if (m - 1) & 1 else "") + ("meta " if (m - 1) & 2 else "") + ("ctrl " if (m - 1) & 4 else "")
+        for c, n in arrows.items():
+            g[f"[1;{m}{c}"] = pre + n
+            g[f"[{m}{c}"] = pre + n
+        for n, name in tilde.items():
+            if n not in (1, 2, 4, 7, 8):
+                g[f"[{n};{m}~"] = pre + name
+        for i, c in enumerate("PQRS"):
+            g[f"[1;{m}{c}"] = pre + f"f{i + 1}"
+    g["[Z"] = "shift tab"
+    _GOLDEN = sorted(g.items())
+    return _GOLDEN
+
+
 def tok_table(rng: random.Random) -> dict:
+    if rng.random() < 0.5:
+        s, name = rng.choice(golden())
+        return {"k": "golden", "hex": ("\x1b" + s).encode("latin-1").hex(), "exp": name}
     s, name = rng.choice(table())
     return {"k": "table", "hex": ("\x1b" + s).encode("latin-1").hex(), "exp": name}
 
